@@ -288,3 +288,43 @@ def rule_intercept(prog):
 
 def run_all(prog):
     return [rule_discr(prog), rule_table(prog), rule_gate(prog), rule_intercept(prog)]
+
+
+def rule_defsrc_identity(prog):
+    """(g) the defsrc identity layer maps *every* code that OsCode::from_u16 knows to its own key code: the value
+    stored per index is `from_u16(i).map(|osc| Action::KeyCode(osc.into())).unwrap_or(NoOp)` with nothing that can drop
+    a known code in between (no filter / and_then / comparison), and the closure builds Action::KeyCode on its only path."""
+    from kq.analysis import backward_slice
+    from rules.r_cancel import closure_arg
+    res = RuleResult("R-DEFSRC-ID", "create_defsrc_layer maps every known code to itself, without a filter", floor=2)
+    f = prog.fn_opt("kanata_parser::cfg::create_defsrc_layer")
+    if f is None:
+        res.viol("anchor", "parser/src/cfg/mod.rs", "create_defsrc_layer not found")
+        return res
+    res.fn(f)
+    DROP = ("filter", "and_then", "filter_map", "take_if", "xor", "then", "then_some", "zip", "ok_or", "checked_sub")
+    calls = [(bi, t, (callee_name(t) or "").split("::")[-1]) for bi, t in f.calls()]
+    has_from = any(n == "from_u16" for _, _, n in calls)
+    droppers = [(t.get("ln"), n) for _, t, n in calls if n in DROP]
+    cmps = [f.line_of(bi, si) for bi, si, st in f.all_rvalues() if st["rv"]["k"] == "bin" and st["rv"]["op"] in ("Eq", "Ne")
+            and f.line_of(bi, si) and not st.get("mac")]
+    ok = has_from and not droppers
+    res.inst("no-filter", where=f.loc, from_u16=has_from, droppers=droppers, ok=ok)
+    res.oblige(ok)
+    if not ok:
+        res.viol("no-filter", "%s:%s" % (f.file, droppers[0][0] if droppers else f.line_of(0)),
+                 "between OsCode::from_u16(i) and the stored action, create_defsrc_layer applies %s: a code that from_u16 knows can be "
+                 "dropped, so a key left transparent on every layer no longer comes out as itself" % (droppers or "no from_u16 at all"))
+    okc = False
+    for bi, t, n in calls:
+        if n == "map" and len(t["args"]) > 1:
+            c = closure_arg(prog, f, t["args"][1])
+            if c is not None:
+                aggs = [st for b in c.reachable() for st in c.stmts(b) if st["k"] == "assign" and st["rv"]["k"] == "agg" and st["rv"].get("v") == "KeyCode"]
+                sw = [b for b in c.reachable() if c.term(b)["k"] == "switch"]
+                okc = bool(aggs) and not sw
+    res.inst("closure-builds-keycode", where=f.loc, ok=okc)
+    res.oblige(okc)
+    if not okc:
+        res.viol("closure-builds-keycode", f.loc, "the closure given to map() no longer builds Action::KeyCode on a single unconditional path")
+    return res
